@@ -33,7 +33,10 @@ func genC07(seed uint64, run int, tier string) Scenario {
 	genSched(kernel.Stream(rs, "sched"), &sc.Common)
 	// read delay: sub-microsecond values make the grace period zero (forced path), larger ones
 	// take the graceful path; <= 1ms so any reasonable grace fits the fixed bound
-	rdNS := pick(r, 700, 900, 20_000, 50_000, 100_000, 250_000, 250_000, 500_000, 1_000_000)
+	// (sub-microsecond read delays make the grace period zero; Close then selects between an
+	// already closed channel and an already expired timer, a choice the Go runtime makes at random
+	// and no seam can own -- the forced path is reached through a reader blocked in a read instead)
+	rdNS := pick(r, 2_000, 20_000, 50_000, 100_000, 250_000, 250_000, 500_000, 1_000_000)
 	sc.ReadDelayUS = int64(rdNS / 1000)
 	sc.ReadSize = pick(r, 1, 64, 8192)
 	sc.SearchDepth = 1000
